@@ -417,6 +417,9 @@ class Engine(object):
             return VRecList(n, ty[1], self.ctx.fresh_name(base))
         if k == 'const':
             return VStr(StrV(ty[1]))
+        if k == 'flagdict':
+            from . import flagdict
+            return flagdict.fresh(self, base, st)
         if k == 'idxlist':
             # references into some record list the caller cannot see: only the index sequence is known
             return st.alloc(HIdxList(None, self.ctx.fresh(base + '_idx', '(Seq Int)')))
@@ -508,6 +511,9 @@ class Engine(object):
                 return BoolV(len(o.entries) > 0)
             if isinstance(o, HInst):
                 return TRUE
+            from . import flagdict as _fd
+            if isinstance(o, _fd.HFlagDict):
+                return Not(Eq(o.present, _fd.const_arr(False)))
         if isinstance(v, (VPy,)):
             try:
                 return BoolV(bool(v.obj))
@@ -551,6 +557,19 @@ class Engine(object):
 
     def v_eq(self, a, b, st):
         """Python == as a Bool term."""
+        from . import flagdict
+        if isinstance(a, flagdict.VSetVal) or isinstance(b, flagdict.VSetVal):
+            def arr_of(x):
+                if isinstance(x, flagdict.VSetVal):
+                    return x.arr
+                if isinstance(x, VRef) and isinstance(st.heap.get(x.loc), HSet):
+                    return st.heap[x.loc].arr
+                raise Undecided('== between a set value and %r' % (x,))
+            return Eq(arr_of(a), arr_of(b))
+        if isinstance(a, flagdict.VFlags) and isinstance(b, flagdict.VFlags):
+            k = smt.bound(self.ctx, 'k', STR)
+            same_vals = smt.ForAll([k], Implies(flagdict.sel(a.present, k), Eq(flagdict.sel(a.bval, k), flagdict.sel(b.bval, k))))
+            return And(Eq(a.present, b.present), same_vals)
         if isinstance(a, VOptSym) or isinstance(b, VOptSym):
             if isinstance(b, VOptSym) and not isinstance(a, VOptSym):
                 a, b = b, a
@@ -595,8 +614,8 @@ class Engine(object):
         if isinstance(a, (VStr,)) and isinstance(b, (VInt, VBool)) or isinstance(b, (VStr,)) and isinstance(a, (VInt, VBool)):
             return FALSE
         for x, y in ((a, b), (b, a)):
-            if isinstance(x, VRef) and isinstance(st.heap.get(x.loc), HInst) and isinstance(y, (VStr, VInt, VBool)):
-                return FALSE        # an instance without __eq__ never equals a str/int
+            if isinstance(x, VRef) and isinstance(st.heap.get(x.loc), (HInst, HSet)) and isinstance(y, (VStr, VInt, VBool)):
+                return FALSE        # an instance without __eq__ / a set never equals a str/int/bool
         def _is_empty(x):
             return isinstance(x, VEmptyList) or isinstance(x, VRef) and isinstance(st.heap.get(x.loc), HPyList) and not st.heap[x.loc].items
         if _is_empty(a) or _is_empty(b):
@@ -692,6 +711,9 @@ class Engine(object):
     def resolve_global(self, name, st):
         mod = self.module
         if mod is not None and name in vars(mod):
+            if name == 'DEFAULT_RUNTIME_STATE' and isinstance(vars(mod)[name], dict) and st is not None:
+                from . import flagdict
+                return flagdict.module_default(self, vars(mod)[name], st)
             return self.lift(vars(mod)[name], st)
         if name == 'S':
             return VPy(importlib.import_module('specs'))
@@ -789,6 +811,9 @@ class Engine(object):
                 continue
             cond = self.truthy(c, s)
             if self.pure:
+                if cond.lit is not None:
+                    out.append((self.ev1(node.body if cond.lit[1] else node.orelse, s), s))
+                    continue
                 a = self.ev1(node.body, s)
                 b = self.ev1(node.orelse, s)
                 out.append((self.v_ite(cond, a, b, s), s))
@@ -1004,6 +1029,13 @@ class Engine(object):
 
     def contains(self, container, item, st, node=None):
         """``item in container`` as a Bool term."""
+        from . import flagdict
+        if isinstance(container, flagdict.VSetVal) and isinstance(item, VStr):
+            return flagdict.sel(container.arr, item.t)
+        if isinstance(container, flagdict.VFlags) and isinstance(item, VStr):
+            return flagdict.sel(container.present, item.t)
+        if isinstance(container, VRef) and isinstance(st.heap.get(container.loc), flagdict.HFlagDict) and isinstance(item, VStr):
+            return flagdict.contains(self, st.heap[container.loc], item, st)
         if isinstance(container, VStr) and isinstance(item, VStr):
             return Contains(container.t, item.t)
         if isinstance(container, VTuple):
@@ -1155,6 +1187,18 @@ class Engine(object):
 
     def do_index(self, base, idx, st, node=None):
         from .executor import VRecList
+        from . import flagdict
+        if isinstance(base, flagdict.VFlags) and isinstance(idx, VStr):
+            return [(VBool(flagdict.sel(base.bval, idx.t)), st)]
+        if isinstance(base, VRef) and isinstance(st.heap.get(base.loc), flagdict.HFlagDict):
+            if self.pure:
+                o = st.heap[base.loc]
+                if isinstance(idx, VStr) and idx.t.lit is not None and idx.t.lit[1] == 'REQUIRES':
+                    return [(o.req, st)]
+                if isinstance(idx, VStr) and idx.t.lit is not None:
+                    return [(VBool(flagdict.sel(o.bval, idx.t)), st)]
+                raise Undecided('spec-level read of a state dict needs a literal key', node)
+            return flagdict.getitem(self, base, st.heap[base.loc], idx, st, node)
         if isinstance(base, VRecList) and isinstance(idx, VInt):
             i = idx.t
             k = i if (self.pure or (i.lit is not None and i.lit[1] >= 0)) else Ite(Lt(i, IntV(0)), Add(i, base.n), i)
@@ -1208,7 +1252,7 @@ class Engine(object):
                 from . import reclists
                 n = o.n if isinstance(o, HRecSeq) else Len(o.idx)
                 i = idx.t
-                k = i if (i.lit is not None and i.lit[1] >= 0) else Ite(Lt(i, IntV(0)), Add(i, n), i)
+                k = i if (self.pure or (i.lit is not None and i.lit[1] >= 0)) else Ite(Lt(i, IntV(0)), Add(i, n), i)
                 inr = And(Ge(i, smt.Neg(n)), Lt(i, n))
                 out = []
                 for r, s in self._safe_result(inr, NONE, IndexError, st, node):
@@ -1355,7 +1399,16 @@ class Engine(object):
         return self.ctx.fresh('fmt', STR)    # unconstrained text (formatting of compound values)
 
     def model_app(self, name, args, ret):
+        new = name not in self.ctx.funs
         self.ctx.fun(name, [a.sort for a in args], ret)
+        if new and name in ('val_of_bool', 'val_of_str'):
+            # injections with their projections (S.val_bool / S.val_str)
+            proj, srt = ('val_bool', BOOL) if name == 'val_of_bool' else ('val_str', STR)
+            self.ctx.fun(proj, ['Val'], srt)
+            x = smt.bound(self.ctx, 'x', srt)
+            inj = self.ctx.app(name, x)
+            self.ctx.fun_axioms.setdefault(name, []).append(
+                smt.ForAll([x], Eq(self.ctx.app(proj, inj), x), patterns=[[inj]]))
         self.trusted_used.add('builtin:' + name)
         return self.ctx.app(name, *args)
 
@@ -1391,7 +1444,11 @@ class Engine(object):
                     return [(VBound(v, name), st)]
                 return self.instance_attr(v, o, name, st, node)
             return [(VBound(v, name), st)]
-        if isinstance(v, (VStr, VSeq, VTuple, VInt, VVal)):
+        from . import flagdict as _fd2
+        if isinstance(v, VBool) and not hasattr(bool, name):
+            # a real AttributeError: reachable only if the path is (an obligation with goal false under the path condition)
+            return self._safe_result(FALSE, NONE, AttributeError, st, node)
+        if isinstance(v, (VStr, VSeq, VTuple, VInt, VVal, _fd2.VFlags, _fd2.VSetVal)):
             return [(VBound(v, name), st)]
         if isinstance(v, VExc):
             if name in v.attrs:
